@@ -79,6 +79,34 @@ pub fn run(ctx: &Ctx) {
         out.count("shared_dimension_set_sequence");
         emit(&mut out, &Case { cfg, calls, sorted: true });
     }
+    // an entry whose write fails (hard error, zero-length write) somewhere in its record, then entries on the same
+    // formatter: each later call's records must be exactly that entry's reference documents (nothing of the failed
+    // entry — dimension sets, declarations, timestamp — may leak into them)
+    let nfail = if ctx.tier_thorough { 3000 } else { 300 };
+    for _ in 0..nfail {
+        let cfg = gen_config(&mut rng);
+        let mut calls = vec![];
+        let ncalls = rng.range(2, 4);
+        let fail_at = rng.below(ncalls - 1);
+        for ci in 0..ncalls {
+            let mut items = gen_items(&mut rng, &cfg, &GenOpts { defects: 0, allow_scripts: false, allow_split: false });
+            if !has_timestamp(&items) { items.insert(0, Item::Timestamp(1_000_000 * (ci as i128 + 7))); }
+            if rng.chance(1, 2) && !items.iter().any(|i| matches!(i, Item::Config(CItem::EntryDims(_)))) {
+                let sets: Vec<Vec<String>> = (0..rng.range(1, 2)).map(|_| (0..rng.below(3)).map(|_| rng.pick(&["API", "Stage", "AZ"]).to_string()).collect()).collect();
+                let mut names: Vec<String> = sets.concat(); names.sort(); names.dedup();
+                for d in names { if !items.iter().any(|i| matches!(i, Item::Value(n, _) if *n == d)) { items.push(Item::Value(d, VCall::Str(format!("e{ci}")))); } }
+                items.insert(1, Item::Config(CItem::EntryDims(sets)));
+            }
+            let script = if ci == fail_at {
+                let mut s: Vec<Resp> = (0..rng.below(4)).map(|_| Resp::Accept(rng.range(1, 60))).collect();
+                s.push(if rng.chance(1, 3) { Resp::Zero } else { Resp::Fail });
+                s
+            } else { vec![] };
+            calls.push(Call { rate_exp: None, items, script });
+        }
+        out.count("io_failure_then_next_entries");
+        emit(&mut out, &Case { cfg, calls, sorted: true });
+    }
     // every unit, every flag, every observation class through one metric each
     for u in all_units() { for fl in [Flag::None, Flag::High, Flag::NoMetric, Flag::Foreign] { for rate in [None, Some(3)] {
         let cfg = Config { ctor: Ctor::AllValidations, namespaces: vec!["N".into(), "M".into()], default_dims: vec![vec![]], directives: vec![], log_group: None, allow_ignored: false };
